@@ -17,38 +17,15 @@ open Fs Apply Patch Undo PatchText
 
 -- 1. header rewriting ------------------------------------------------------------------------------------
 
-/-- one line of text: no `\n` except the last byte -/
-def IsLine (l : Bytes) : Prop := ∃ s, l = s ++ [10] ∧ (10 : UInt8) ∉ s
-
 /-- HEADER REWRITING TOUCHES ONLY THE HEADER.  For every text `l1 ++ l2 ++ body` whose first two lines are a
     `--- ` and a `+++ ` line and whose rest starts with `@@`, `replace_patch_headers` yields the two new header
     lines (each with the line ending of the line it replaces) followed by `body` byte for byte — whatever `body`
     contains: `--- x`, `+++ y`, `@@`, CRLF, a missing final newline. -/
 theorem rewriteHeaders_only_headers (l1 l2 body a b : Bytes) (h1 : IsLine l1) (h2 : IsLine l2)
     (p1 : sw l1 b!"--- " = true) (p2 : sw l2 b!"+++ " = true) (p3 : sw body b!"@@" = true) :
-    rewriteHeaders (l1 ++ l2 ++ body) a b = b!"--- " ++ a ++ eol l1 ++ (b!"+++ " ++ b ++ eol l2 ++ body) := by
-  obtain ⟨s1, rfl, hs1⟩ := h1
-  obtain ⟨s2, rfl, hs2⟩ := h2
-  unfold rewriteHeaders splitPreservingNewlines
-  have e : s1 ++ [10] ++ (s2 ++ [10]) ++ body = s1 ++ [10] ++ (s2 ++ [10] ++ body) := by simp
-  rw [e, lines_line_append s1 _ hs1, lines_line_append s2 _ hs2]
-  have n1 : sw (s1 ++ [10]) b!"@@" = false := by
-    match s1, p1 with
-    | c :: _, p1 =>
-      have : c = 45 := by simp [sw, List.isPrefixOf] at p1; exact p1.1.symm
-      subst this; simp [sw, List.isPrefixOf]
-  have n2 : sw (s2 ++ [10]) b!"@@" = false := by
-    match s2, p2 with
-    | c :: _, p2 =>
-      have : c = 43 := by simp [sw, List.isPrefixOf] at p2; exact p2.1.symm
-      subst this; simp [sw, List.isPrefixOf]
-  have n3 : sw (s2 ++ [10]) b!"--- " = false := by
-    match s2, p2 with
-    | c :: _, p2 =>
-      have : c = 43 := by simp [sw, List.isPrefixOf] at p2; exact p2.1.symm
-      subst this; simp [sw, List.isPrefixOf]
-  simp only [rewriteGo, n1, n2, n3, p1, p2, Bool.false_eq_true, if_false, if_true, Bool.not_true,
-    rewriteGo_body a b body p3]
+    rewriteHeaders (l1 ++ l2 ++ body) a b
+      = b!"--- " ++ quoteName a ++ eol l1 ++ (b!"+++ " ++ quoteName b ++ eol l2 ++ body) :=
+  rewriteGo_shape l1 l2 body (quoteName a) (quoteName b) h1 h2 p1 p2 p3
 
 /-- non-vacuity, and the shapes that used to break: body lines `--- x`, `+++ y`, `@@`, CRLF header, no final newline -/
 example :
@@ -68,100 +45,103 @@ theorem rewriteHeadersOld_witness_dashdash :
 
 -- 2. diff contract and content restoration -------------------------------------------------------------------
 
-/-- `NameOk n`: diffy's parser accepts `n` unquoted and returns it unchanged (`ESCAPED_CHARS` = `\n \t \0 \r " \\`).
-    renamify writes its header lines unquoted, so a path outside `NameOk` (TAB excepted, which only truncates the
-    name) makes `Patch::from_str` fail on renamify's own patch: finding `unquoted_header`. -/
-abbrev NameOk := UndoLemmas.NameOk
-
 /-- What is assumed about `diffy` (hypotheses, not axioms).  `roundtrip` is the stated contract; `emptyId` and
-    `nameBlind` say that `apply` ignores the header and does nothing without hunks (`diffy/src/apply.rs`); `parses` is
-    `parse_rewrite_fmt` for the patches `create_patch` produces.  All four are exercised on every generated pair by the
-    check (`diffrt`, `patchrt`, `papply`, stored-patch comparison). -/
+    `nameBlind` say that `apply` ignores the header and does nothing without hunks (`diffy/src/apply.rs`); `names` and
+    `selfParse` say that `create_patch` uses the generic header and that diffy parses its own output back
+    (`Patch::from_str(p.to_string()) == p`).  Nothing about renamify's rewriting is assumed any more: that part is
+    `parse_rewrite_fmt`.  All five are exercised on every generated pair by the check (`diffrt`, `patchrt`, `papply`). -/
 abbrev Contract := UndoLemmas.Contract
 
-/-- the statement of `parse_rewrite_fmt` at full strength (NOT proved in general here; `Contract.parses` is its
-    instance for the diff function; kernel-evaluated instances below; compared with the real parser on every run) -/
-def parse_rewrite_fmt_full : Prop :=
-  ∀ (p : Patch.Patch) (a b : Bytes), p.old = some b!"original" → p.new = some b!"modified" →
-    Patch.parse (fmt p) = .ok p → NameOk a → NameOk b →
-    Patch.parse (rewriteHeaders (fmt p) a b) = .ok { p with old := some a, new := some b }
+/-- QUOTED HEADER NAMES READ BACK.  For EVERY path string — quotes, backslashes, TAB, CR, LF, NUL included — diffy's
+    `parse_filename` returns exactly the name that `replace_patch_headers` wrote (quoted when diffy requires it).
+    (Commit "quote file names in reverse patch headers when diffy requires it".) -/
+theorem parseFilename_quoted (n : Bytes) :
+    parseFilename b!"--- " (b!"--- " ++ quoteName n ++ [10]) = .ok n ∧
+    parseFilename b!"+++ " (b!"+++ " ++ quoteName n ++ [10]) = .ok n :=
+  ⟨PatchParse.parseFilename_quoted _ n, PatchParse.parseFilename_quoted _ n⟩
 
-/-- instances of `parse_rewrite_fmt`: CRLF lines, `--- `/`+++ ` body lines, blank context, both sides without final
-    newline, a path with spaces and non-ASCII bytes -/
+/-- `parse_rewrite_fmt`.  For every patch `p` with diffy's generic header and at least one hunk that diffy parses back
+    from its own text, and for EVERY pair of paths: parsing the text with renamify's header lines gives `p` with the
+    two paths as names.  (The hypothesis `parse (fmt p) = ok p` is about diffy alone; it is `Contract.selfParse` for
+    the patches `create_patch` produces and is compared with the real parser on every run.) -/
+theorem parse_rewrite_fmt (p : Patch.Patch) (a b : Bytes) (ho : p.old = some b!"original")
+    (hn : p.new = some b!"modified") (hh : p.hunks ≠ []) (hp : Patch.parse (fmt p) = .ok p) :
+    Patch.parse (rewriteHeaders (fmt p) a b) = .ok { p with old := some a, new := some b } :=
+  PatchParse.parse_rewrite p a b ho hn hh hp
+
+/-- non-vacuity of `parse_rewrite_fmt` and independent kernel evaluation: CRLF lines, `--- `/`+++ ` body lines, blank
+    context, both sides without final newline; paths with a space, non-ASCII bytes, a double quote, a backslash,
+    TAB, CR and LF -/
 theorem parse_rewrite_fmt_instances :
     (let p := diffAll b!"x baz_qux\r\n-- baz_qux\n\nlast" b!"x foo_bar\r\n-- foo_bar\n\nlast baz"
+     Patch.parse (fmt p) = .ok p ∧
      Patch.parse (rewriteHeaders (fmt p) b!"my dir/n\xc3\xa9w.txt" b!"my dir/old.txt")
-       = .ok { p with old := some b!"my dir/n\xc3\xa9w.txt", new := some b!"my dir/old.txt" }) ∧
+       = .ok { p with old := some b!"my dir/n\xc3\xa9w.txt", new := some b!"my dir/old.txt" } ∧
+     Patch.parse (rewriteHeaders (fmt p) b!"q\"baz_qux\".txt" b!"a\\b/t\tab\rcr\nlf")
+       = .ok { p with old := some b!"q\"baz_qux\".txt", new := some b!"a\\b/t\tab\rcr\nlf" }) ∧
     (let p : Patch.Patch := Patch.Patch.mk (some b!"original") (some b!"modified")
         [Patch.Hunk.mk ⟨1, 3⟩ ⟨1, 3⟩ none [⟨.context, b!"a\n"⟩, ⟨.delete, b!"-- x\n"⟩, ⟨.insert, b!"++ y\n"⟩, ⟨.context, b!"\n"⟩],
          Patch.Hunk.mk ⟨10, 1⟩ ⟨10, 1⟩ none [⟨.delete, b!"end"⟩, ⟨.insert, b!"END"⟩]]
-     Patch.parse (rewriteHeaders (fmt p) b!"a/b" b!"c/d") = .ok { p with old := some b!"a/b", new := some b!"c/d" }) := by
+     Patch.parse (fmt p) = .ok p ∧
+     Patch.parse (rewriteHeaders (fmt p) b!"a/b" b!"c/d") = .ok { p with old := some b!"a/b", new := some b!"c/d" }) ∧
+    rewriteHeaders b!"--- original\n+++ modified\n@@ -1 +1 @@\n-a\n+b\n" b!"q\"x\".txt" b!"t\tab"
+      = b!"--- \"q\\\"x\\\".txt\"\n+++ \"t\\tab\"\n@@ -1 +1 @@\n-a\n+b\n" := by
   decide
 
-/-- THE GUARD IS NEEDED (finding `unquoted_header`): with a double quote (or a backslash) in the path, renamify's own
-    patch no longer parses — "invalid char in unquoted filename" — although the same patch with diffy's generic
-    header does. -/
-theorem parse_witness_unquoted_header :
+/-- THE OLD DEFECT (before "fix: quote file names in reverse patch headers when diffy requires it"): with the path
+    written as it is, a double quote or a backslash made renamify's own patch unparsable — "invalid char in unquoted
+    filename" — although the same patch with diffy's generic header parses (a TAB only truncated the name). -/
+theorem rewriteHeadersUnquoted_witness :
     let p := diffAll b!"say baz_qux\n" b!"say foo_bar\n"
     Patch.parse (fmt p) = .ok p ∧
-    Patch.parse (rewriteHeaders (fmt p) b!"q\"baz_qux\".txt" b!"q\"foo_bar\".txt") = .error .invalidUnquoted ∧
-    Patch.parse (rewriteHeaders (fmt p) b!"a\\b/n.txt" b!"a\\b/n.txt") = .error .invalidUnquoted ∧
-    (Patch.parse (rewriteHeaders (fmt p) b!"tab\tbaz.txt" b!"tab\tfoo.txt")).isOk = true := by decide
+    Patch.parse (rewriteHeadersUnquoted (fmt p) b!"q\"baz_qux\".txt" b!"q\"foo_bar\".txt") = .error .invalidUnquoted ∧
+    Patch.parse (rewriteHeadersUnquoted (fmt p) b!"a\\b/n.txt" b!"a\\b/n.txt") = .error .invalidUnquoted ∧
+    (Patch.parse (rewriteHeadersUnquoted (fmt p) b!"tab\tbaz.txt" b!"tab\tfoo.txt")).isOk = true ∧
+    (Patch.parse (rewriteHeaders (fmt p) b!"q\"baz_qux\".txt" b!"q\"foo_bar\".txt")).isOk = true := by decide
 
 open UndoLemmas in
 /-- CONTENT RESTORATION.  Under the contract, STEP 2 of undo gives an edited file its original bytes back and keeps
-    its mode; no other node is touched. -/
+    its mode; no other node is touched — whatever the two paths are. -/
 theorem undo_content (cfg : Cfg) (hc : Contract cfg) (T : Tree) (f cur : Path) (c1 c0 : Bytes) (m : Nat)
-    (hl : lookup T f = some (.file c1 m)) (hv : Utf8.valid c1 = true)
-    (hn1 : NameOk (joinPath cur)) (hn2 : NameOk (joinPath f)) :
+    (hl : lookup T f = some (.file c1 m)) (hv : Utf8.valid c1 = true) (hne : c1 ≠ c0) :
     applyOne cfg T { orig := f, cur := cur,
                      text := rewriteHeaders (fmt (cfg.diff c1 c0)) (joinPath cur) (joinPath f) }
       = (setContent T f c0, false) ∧
     lookup (setContent T f c0) f = some (.file c0 m) ∧
     ∀ k, k ≠ f → lookup (setContent T f c0) k = lookup T k := by
-  refine ⟨applyOne_good cfg hc T f cur c1 c0 m hl hv hn1 hn2, ?_, ?_⟩
+  have hh : (cfg.diff c1 c0).hunks ≠ [] := fun h => hne (hc.eq_of_noHunks h)
+  refine ⟨applyOne_good cfg hc T f cur c1 c0 m hl hv hh, ?_, ?_⟩
   · rw [lookup_setContent]; simp [hl, setFile]
   · intro k hk; rw [lookup_setContent, if_neg hk]
 
-/-- the content guard is needed as well: a failing patch leaves the new content and drops a `.rej` file -/
+/-- repaired: a file whose name contains a double quote is restored by the driver's instance of the model … -/
+theorem undo_content_quoted_name :
+    let t : Tree := [([b!"q\"x\".txt"], .file b!"say baz_qux\n" 436)]
+    let pr : PatchRec := PatchRec.mk [b!"q\"x\".txt"] [b!"q\"x\".txt"]
+      (rewriteHeaders (fmt (diffAll b!"say baz_qux\n" b!"say foo_bar\n")) b!"q\"x\".txt" b!"q\"x\".txt")
+    applyOne driverCfg t pr = ([([b!"q\"x\".txt"], .file b!"say foo_bar\n" 436)], false) := by decide
+
+/-- … whereas a patch that does not parse (the old unquoted header) leaves the new content and drops a `.rej` file -/
 theorem undo_content_witness_rej :
     let t : Tree := [([b!"q\"x\".txt"], .file b!"say baz_qux\n" 420)]
     let pr : PatchRec := PatchRec.mk [b!"q\"x\".txt"] [b!"q\"x\".txt"]
-      (rewriteHeaders (fmt (diffAll b!"say baz_qux\n" b!"say foo_bar\n")) b!"q\"x\".txt" b!"q\"x\".txt")
+      (rewriteHeadersUnquoted (fmt (diffAll b!"say baz_qux\n" b!"say foo_bar\n")) b!"q\"x\".txt" b!"q\"x\".txt")
     (applyOne driverCfg t pr).2 = true ∧
     lookup (applyOne driverCfg t pr).1 [b!"q\"x\".txt"] = some (.file b!"say baz_qux\n" 420) ∧
     (lookup (applyOne driverCfg t pr).1 [b!"q\"x\".txt.rej"]).isSome = true := by decide
 
 -- 3. rename reversal -----------------------------------------------------------------------------------------
 
-/-- no planned source is a symbolic link.  `undo` guards every rename with `Path::exists()`, which follows links:
-    a renamed link that dangles at that moment is skipped (finding `symlink_exists_guard`). -/
-def NoRenamedLinks (t : Tree) (rs : List Ren) : Prop :=
-  ∀ r ∈ rs, ∀ tg, lookup t r.path ≠ some (.link tg)
-
-instance (t : Tree) (rs : List Ren) : Decidable (NoRenamedLinks t rs) := by
-  unfold NoRenamedLinks
-  have : ∀ r : Ren, Decidable (∀ tg, lookup t r.path ≠ some (.link tg)) := by
-    intro r
-    cases h : lookup t r.path with
-    | none => exact isTrue (by intro tg h'; cases h')
-    | some n =>
-      cases n with
-      | file c m => exact isTrue (by intro tg h'; cases h')
-      | dir m => exact isTrue (by intro tg h'; cases h')
-      | link tg => exact isFalse (by intro hh; exact hh tg rfl)
-  infer_instance
-
 open UndoLemmas RenamePhase in
 /-- UNDO STEP 1 INVERTS THE RENAME PHASE.  For every tree and rename set within the guards of the rename-phase
-    theorem (`C02ren.renamePhase_ok`: the tree after apply is `moveAll rs t`) and without renamed symlinks, the undo
-    sequence — directories back shallowest first, then files, each guarded by `exists` — returns every node to its
-    original path: directories renamed inside renamed directories at any depth included. -/
+    theorem (`C02ren.renamePhase_ok`: the tree after apply is `moveAll rs t`), the undo sequence — directories back
+    shallowest first, then files, each guarded by `symlink_metadata` — returns every node to its original path:
+    directories renamed inside renamed directories at any depth and renamed symlinks (dangling or not) included. -/
 theorem undo_paths (t : Tree) (rs : List Ren) (h1 : C02ren.LastOnly rs) (h2 : C02ren.DistinctSources rs)
-    (h3 : C02ren.TreeWF t) (h4 : C02ren.KindsOk t rs) (h5 : C02ren.DestFree t rs) (h6 : NoRenamedLinks t rs) :
+    (h3 : C02ren.TreeWF t) (h4 : C02ren.KindsOk t rs) (h5 : C02ren.DestFree t rs) :
     undoRenames rs (C02ren.moveAll rs t) = (t, none) := by
   rw [C02ren.moveAll_eq]
-  exact undo_paths_core t rs ⟨h1.toLemma, h2, h3.toLemma, h4.toLemma, h5⟩ h6
+  exact undo_paths_core t rs ⟨h1.toLemma, h2, h3.toLemma, h4.toLemma, h5⟩
 
 /-- a directory tree renamed on three levels, with a file that is edited only, renamed only, both -/
 def nestedTree : Tree :=
@@ -183,8 +163,7 @@ def nestedRens : List Ren :=
 
 /-- non-vacuity of `undo_paths`: the guards hold on the 3-level example … -/
 example : C02ren.LastOnly nestedRens ∧ C02ren.DistinctSources nestedRens ∧ C02ren.TreeWF nestedTree ∧
-    C02ren.KindsOk nestedTree nestedRens ∧ C02ren.DestFree nestedTree nestedRens ∧
-    NoRenamedLinks nestedTree nestedRens := by decide
+    C02ren.KindsOk nestedTree nestedRens ∧ C02ren.DestFree nestedTree nestedRens := by decide
 
 /-- … and the model evaluates to the original tree on it (independently of the theorem). -/
 example : undoRenames nestedRens (C02ren.moveAll nestedRens nestedTree) = (nestedTree, none) := by decide
@@ -204,30 +183,27 @@ open RenamePhase UndoLemmas in
 /-- `G01`: the guard of `undo_apply_id`.  Clause by clause:
     * `lastOnly … destFree` — the guards of the rename-phase theorem (`C02ren.renamePhase_ok`); every plan the planner
       emits and the pre-flight accepts satisfies them;
-    * `noLinks`   — no renamed node is a symlink (outside: finding `symlink_exists_guard`);
     * `applyOk`   — "after any successful apply";
-    * `names`     — the relative paths of the edited files, before and after the renames, contain none of
-                    `" \ CR LF TAB NUL` (outside, except TAB: finding `unquoted_header`);
     * `filesDistinct` — holds for every plan (`sortedFiles` are the keys of a `BTreeMap`); kept as a clause because the
       proof of key-uniqueness of `insertPath` is not part of this file.
+    Gone since the three repairs of 2026-09-29: `noLinks` (no renamed node is a symlink: the guard of STEP 1 is lstat
+    now) and `names` (paths of edited files free of `" \ CR LF`: the header names are quoted now).
     Not expressible in the tree model and therefore outside the theorem: permissions of the user running undo
-    (finding `readonly_inplace_write`), and `replace` plans that edit through a symlink (finding `replace_follows_symlink`,
-    excluded here by `applyOk`: the model's content phase refuses a non-regular file). -/
+    (undo now writes through a temp file like apply, so a read-only FILE is restored; a read-only DIRECTORY stops both). -/
 structure G01 (t : Tree) (p : Plan) : Prop where
   lastOnly : C02ren.LastOnly p.rens
   distinct : C02ren.DistinctSources p.rens
   treeWF : C02ren.TreeWF t
   kinds : C02ren.KindsOk t p.rens
   destFree : C02ren.DestFree t p.rens
-  noLinks : NoRenamedLinks t p.rens
   applyOk : (applyPlan t p).outcome = .ok
-  names : ∀ f ∈ sortedFiles p.hunks, NameOk (joinPath f) ∧ NameOk (joinPath (C02ren.finalPath p.rens f))
   filesDistinct : (sortedFiles p.hunks).Pairwise (fun a b => a ≠ b)
 
 open RenamePhase UndoLemmas in
 /-- UNDO ∘ APPLY = ID.  For every tree and plan in `G01` and every diff library satisfying `Contract`:
     apply succeeds, undo succeeds, and the tree after undo is literally the tree before apply — every path, byte,
-    mode and link target, in the same order (files edited AND renamed AND inside renamed directories included). -/
+    mode and link target, in the same order (files edited AND renamed AND inside renamed directories, renamed
+    symlinks, and paths with any bytes included). -/
 theorem undo_apply_id (cfg : Cfg) (hc : Contract cfg) (t : Tree) (p : Plan) (g : G01 t p) :
     ∃ u, applyUndo cfg t p = (.ok, some u) ∧ u.outcome = .ok ∧ u.tree = t := by
   have hlo := g.lastOnly.toLemma
@@ -249,9 +225,6 @@ theorem undo_apply_id (cfg : Cfg) (hc : Contract cfg) (t : Tree) (p : Plan) (g :
   simp only at hs
   have g1 : Guards t1 p.rens := ⟨hlo, h2, h3.sameShape hs, h4.sameShape hs, h5.sameShape hs⟩
   obtain ⟨hkeys, hout, hin, hlink⟩ := contentPhase_lookup p.hunks (sortedFiles p.hunks) t t1 hcp
-  have hnl1 : NoLinks t1 p.rens := by
-    intro r hr tg h
-    exact g.noLinks r hr tg ((hlink r.path tg).1 h)
   have hr := renamePhase_sortRens t1 p.rens hlo h2 g1.wf g1.ko g1.df
   have hcur : ∀ f, currentPath ((sortRens p.rens).map (fun r => (r.path, finalPath p.rens r.path))) f
       = finalPath p.rens f := currentPath_sortRens p.rens h2 (fileLeaf_of_guards h3 hlo h4)
@@ -283,7 +256,7 @@ theorem undo_apply_id (cfg : Cfg) (hc : Contract cfg) (t : Tree) (p : Plan) (g :
       simpa [readable, hlm] using this
     refine ⟨c0, m, c1, hl0, hl1, hv1, ?_⟩
     simp only [patchFor, readStr, hl0, hv0, if_true, r, hcur, hlm, hv1]
-  have hundo : undoRenames p.rens (moveAll p.rens t1) = (t1, none) := undo_paths_core t1 p.rens g1 hnl1
+  have hundo : undoRenames p.rens (moveAll p.rens t1) = (t1, none) := undo_paths_core t1 p.rens g1
   let patches := (sortedFiles p.hunks).filterMap (patchFor cfg t r)
   have hdist : patches.Pairwise (fun a b => a.orig ≠ b.orig) := by
     apply List.Pairwise.filterMap _ _ g.filesDistinct
@@ -299,10 +272,11 @@ theorem undo_apply_id (cfg : Cfg) (hc : Contract cfg) (t : Tree) (p : Plan) (g :
     · cases hfp
     · injection hfp with hfp
       subst hfp
-      have hnm := g.names f hf
-      rw [C02ren.finalPath_eq] at hnm
-      refine ⟨c1, m, hl1, hv1, hnm.2, hnm.1, ?_⟩
-      simp only [C0, hl0]
+      rename_i hemp
+      refine ⟨c1, m, hl1, hv1, ?_, ?_⟩
+      · simp only [C0, hl0]
+        intro h; apply hemp; rw [h]; rfl
+      · simp only [C0, hl0]
   obtain ⟨T', hT1, hT2, hT3⟩ := applyPatches_good cfg hc C0 patches t1 0 hdist hgood
   have hTt : T' = t := by
     apply tree_ext t T' (hT2.trans hkeys) h3.1
@@ -344,26 +318,60 @@ def nestedPlan : Plan :=
     rens := nestedRens }
 
 example : G01 nestedTree nestedPlan :=
-  ⟨by decide, by decide, by decide, by decide, by decide, by decide, by decide, by decide, by decide⟩
+  ⟨by decide, by decide, by decide, by decide, by decide, by decide, by decide⟩
 
 /-- … and on it the driver's instance of the model evaluates to the identity (independently of the theorem) -/
 example : (applyUndo driverCfg nestedTree nestedPlan).1 = .ok ∧
     ((applyUndo driverCfg nestedTree nestedPlan).2.map (fun u => (u.outcome, u.tree))) = some (.ok, nestedTree) := by
   decide
 
-/-- `C01_full`: the property without guard.  False today: see the witnesses (`parse_witness_unquoted_header`,
-    `undo_witness_dangling_symlink`) and the findings that the tree model cannot express. -/
+/-- … also with a renamed dangling symlink and an edited file whose name carries a double quote and a backslash
+    (both outside the old `G01`) -/
+def hostilePlanTree : Tree :=
+  [([b!"foo_bar_dangling"], .link b!"nowhere"),
+   ([b!"foo_bar-link"], .link b!"foo_bar.txt"),
+   ([b!"foo_bar.txt"], .file b!"tgt\n" 436),
+   ([b!"say \"foo_bar\" a\\b.txt"], .file b!"say foo_bar\r\n-- foo_bar" 292)]
+
+def hostilePlan : Plan :=
+  { hunks := [{ file := [b!"say \"foo_bar\" a\\b.txt"], before := b!"foo_bar", after := b!"baz_qux", start := 4, stop := 11 },
+              { file := [b!"say \"foo_bar\" a\\b.txt"], before := b!"foo_bar", after := b!"baz_qux", start := 16, stop := 23 }],
+    rens := [⟨[b!"foo_bar_dangling"], [b!"baz_qux_dangling"], .file⟩, ⟨[b!"foo_bar-link"], [b!"baz_qux-link"], .file⟩,
+             ⟨[b!"foo_bar.txt"], [b!"baz_qux.txt"], .file⟩,
+             ⟨[b!"say \"foo_bar\" a\\b.txt"], [b!"say \"baz_qux\" a\\b.txt"], .file⟩] }
+
+example : G01 hostilePlanTree hostilePlan :=
+  ⟨by decide, by decide, by decide, by decide, by decide, by decide, by decide⟩
+
+/-- REPAIRED BEHAVIOUR, kernel-evaluated on the driver's instance: dangling link, link to a renamed sibling, quoted
+    and backslashed file name, mode 0444, CRLF and no final newline — all restored -/
+theorem undo_apply_id_hostile :
+    (applyUndo driverCfg hostilePlanTree hostilePlan).1 = .ok ∧
+    ((applyUndo driverCfg hostilePlanTree hostilePlan).2.map (fun u => (u.outcome, u.tree)))
+      = some (.ok, hostilePlanTree) := by decide
+
+/-- `C01_full`: the property without the rename-set guards.  What separates it from `undo_apply_id` is only that the
+    plan is one the planner can emit (`lastOnly`, `distinct`, `kinds`, `destFree`: C08/C05) — hand-made plans with two
+    renames onto one destination lose a file at apply time and cannot be undone. -/
 def C01_full : Prop :=
   ∀ (cfg : Cfg), Contract cfg → ∀ (t : Tree) (p : Plan), C02ren.TreeWF t → (applyPlan t p).outcome = .ok →
     ∃ u, applyUndo cfg t p = (.ok, some u) ∧ u.outcome = .ok ∧ u.tree = t
 
-/-- THE `noLinks` CLAUSE IS NEEDED (finding `symlink_exists_guard`): a renamed dangling symlink is skipped by the
-    `exists()` guard; undo reports success and the link keeps its new name. -/
-theorem undo_witness_dangling_symlink :
+/-- `C01_full` is false for hand-made plans: two sources, one destination -/
+theorem C01_full_witness_two_to_one :
+    let t : Tree := [([b!"a"], .file b!"A" 420), ([b!"b"], .file b!"B" 420)]
+    let p : Plan := { hunks := [], rens := [⟨[b!"a"], [b!"c"], .file⟩, ⟨[b!"b"], [b!"c"], .file⟩] }
+    C02ren.TreeWF t ∧ (applyPlan t p).outcome = .ok ∧
+    (applyUndo driverCfg t p).2.map (fun u => u.tree) ≠ some t := by decide
+
+/-- THE OLD DEFECT (before "fix: undo renames dangling symlinks back"): with the `exists()` guard, which follows links,
+    a renamed dangling symlink is skipped — undo reported success and the link kept its new name; with the lstat
+    guard it comes back. -/
+theorem undoRenamesFollow_witness_dangling :
     let t : Tree := [([b!"foo_bar_dangling"], .link b!"nowhere"), ([b!"keep.txt"], .file b!"k" 420)]
-    let p : Plan := { hunks := [], rens := [⟨[b!"foo_bar_dangling"], [b!"baz_qux_dangling"], .file⟩] }
-    (applyPlan t p).outcome = .ok ∧
-    (applyUndo driverCfg t p).2.map (fun u => (u.outcome, u.tree)) =
-      some (.ok, [([b!"baz_qux_dangling"], .link b!"nowhere"), ([b!"keep.txt"], .file b!"k" 420)]) := by decide
+    let rs : List Ren := [⟨[b!"foo_bar_dangling"], [b!"baz_qux_dangling"], .file⟩]
+    undoRenamesFollow rs (C02ren.moveAll rs t)
+      = ([([b!"baz_qux_dangling"], .link b!"nowhere"), ([b!"keep.txt"], .file b!"k" 420)], none) ∧
+    undoRenames rs (C02ren.moveAll rs t) = (t, none) := by decide
 
 end C01
